@@ -51,6 +51,16 @@ def cell_ptr(t, cellf):
         and self_field_name(t[2][0]) == cellf
 
 
+def _in_cell(loc, cellf):
+    """does location term `loc` lie in the memory behind the cell pointer?  (the result of some other call - e.g. the old
+    value returned by Option::replace(&mut *cell, ..) - is a value of its own, not the cell)"""
+    if cell_ptr(loc, cellf):
+        return True
+    if loc[0] == 'call':
+        return False
+    return any(_in_cell(x, cellf) for x in loc[1:] if isinstance(x, tuple) and x and isinstance(x[0], str))
+
+
 def cell_accesses(body, T, cellf):
     """blocks that read or write memory through the cell pointer: [(bb, kind)]"""
     out = []
@@ -76,13 +86,15 @@ def cell_accesses(body, T, cellf):
         n = len(blk['stmts'])
         if t['k'] == 'drop':
             loc = norm(T.place_loc(t['place'], bi, n))
-            if any(cell_ptr(y, cellf) for y in walk(loc)):
+            if _in_cell(loc, cellf):
                 out.append((bi, 'write'))
         elif t['k'] == 'call':
             ct = norm(T.call_term(bi))
             if ct[0] == 'call' and not cell_ptr(ct, cellf):
                 for a in ct[2]:
-                    if any(y[0] == 'deref' and cell_ptr(y[1], cellf) for y in walk(a)):
+                    if a[0] == 'ref' and len(a) > 2 and a[2] and any(y[0] == 'deref' and cell_ptr(y[1], cellf) for y in walk(a)):
+                        out.append((bi, 'write'))       # `&mut *cell` handed to a function (Option::replace, mem::replace ..)
+                    elif any(y[0] == 'deref' and cell_ptr(y[1], cellf) for y in walk(a)):
                         out.append((bi, 'read'))
     return out
 
@@ -174,6 +186,15 @@ def check(ctx, rep, upto=None):
         good = False
         for dt, labels, sbi in gs:
             d = norm(dt)
+            if term_callee_is(d, AT + 'load') and self_field_name(d[2][0]) == statef and len(labels) == 1 and list(labels)[0][0] == 'int':
+                # `match state.load(..) { COMPLETE => .., _ => .. }`: a switch on the loaded value itself
+                o = ordering(d[2][1])
+                if o in ('Acquire', 'SeqCst'):
+                    good = True
+                    K = str(list(labels)[0][1])
+                else:
+                    why = 'the state is loaded with Ordering::%s before the cell is read: seeing COMPLETE does not ' \
+                          'synchronise with the writer\'s release store, the read of the cell races with the initialising write' % o
             if d[0] == 'bin' and d[1] in ('Eq', 'Ne'):
                 a, b = d[2], d[3]
                 ld, cst = (a, b) if term_callee_is(a, AT + 'load') else (b, a)
@@ -314,6 +335,17 @@ def check(ctx, rep, upto=None):
     if writes:
         # value written is Some(Arc::new(param))
         vals = [norm(Ts.store_value(st)) for st in Ts.stores() if st[0] == 's' and any(cell_ptr(y, cellf) for y in walk(norm(st[3])))]
+        for bi, kind in acc:
+            if kind == 'write' and sb.blocks[bi]['term']['k'] == 'call':
+                ct = norm(Ts.call_term(bi))
+                if ct[0] == 'call' and ct[2] and ct[2][0][0] == 'ref' and any(cell_ptr(y, cellf) for y in walk(ct[2][0])):
+                    # std: Option::replace(c, v) / insert(c, v) store Some(v); mem::replace(c, x) stores x
+                    if term_callee_is(ct, 'core::option::Option::replace', 'core::option::Option::insert') and len(ct[2]) == 2:
+                        vals.append(('adt', 'core::option::Option', 'Some', (('0', ct[2][1]),)))
+                    elif term_callee_is(ct, 'core::mem::replace') and len(ct[2]) == 2:
+                        vals.append(ct[2][1])
+                    else:
+                        vals.append(('unknown', ct[1]))
         okv = bool(vals) and all(v[0] == 'adt' and v[2] == 'Some' and term_callee_is(dict(v[3])['0'], 'alloc::sync::Arc::new') and dict(v[3])['0'][2][0] == ('param', 2) for v in vals)
         rep.ob('R2', 'set/stores-the-given-client', okv, m['set'].where(), 'cell := Some(Arc::new(val))')
     # ---- R4 frame over the crate
